@@ -97,7 +97,8 @@ def operand(pairs, kind):
         return collections.OrderedDict(d)
     if kind in ('lri', 'lru'):
         o = (cu.LRI if kind == 'lri' else cu.LRU)(max_size=max(1, len(d)))
-        for k, v in d.items():
+        # (filled newest-first: equal contents, but a different recency history than the cache it is compared with)
+        for k, v in reversed(list(d.items())):
             o[k] = v
         return o
     raise AssertionError(kind)
